@@ -151,8 +151,8 @@ class Resolver:
             elif "f" in el:
                 if self.is_closure and e == ('param', 1, self.body.local_name(1)):
                     e = ('upvar', el["f"], self.body.upvars.get(el["f"], str(el["f"])))
-                elif e[0] == 'agg':
-                    # projection out of a known aggregate
+                elif e[0] == 'agg' and e[1] != 'adt':
+                    # projection out of a known tuple / capture aggregate (struct fields are mutable state)
                     name = el.get("n", el["f"])
                     hit = None
                     for (fn, fe) in e[3]:
@@ -339,7 +339,8 @@ def simplify(e):
                 for (n, x) in inner2[3]:
                     if n == e[2]:
                         return x
-        if inner[0] == 'agg':
+        if inner[0] == 'agg' and inner[1] != 'adt':
+            # tuples, arrays, closure / coroutine captures; struct fields are mutable state and are not folded
             for (n, x) in inner[3]:
                 if n == e[2]:
                     return x
